@@ -1645,3 +1645,135 @@ class ParseTypescriptExactText:
 class ParseRustExactText:
     def ensures_the_tree_is_the_parse_of_exactly_the_given_text(self, code, result):
         return result == tree_sitter_root(the_rust_parser(), code)
+
+
+# ================================================================== BOUNDED net: every reported location is a real one
+# Labelled `bounded` (finite native test at the observation point; not a proof, not a replacement for the location
+# clauses above). Every registered rule is run by the real Orchestrator on a corpus of healthy Python / TypeScript / Rust
+# files, on the C19 embedding files, and on prefix / encoding variants of them (shebang line, UTF-8 BOM, CRLF line
+# ends). Oracle from the property text only, per violation: the file is the linted file; 1 <= line <= number of lines;
+# 0 <= column <= length of that line; and if the message quotes names or number literals ('...' or a bare number),
+# at least one of them occurs on the reported line (file-level findings at line 1 and syntax-error notices excepted).
+import subprocess as _subprocess  # noqa: E402
+import sys as _sys  # noqa: E402
+import tempfile as _tempfile  # noqa: E402
+
+_LOCATION_DRIVER = r"""
+import json, sys
+from pathlib import Path
+sys.path.insert(0, sys.argv[1])
+from src.orchestrator.core import Orchestrator
+root = Path(sys.argv[2])
+o = Orchestrator(project_root=root)
+out = {}
+for p in sorted(root.iterdir()):
+    if p.suffix in (".py", ".ts", ".js", ".rs"):
+        out[p.name] = [[v.rule_id, v.file_path, v.line, v.column, v.message] for v in o.lint_file(p)]
+print("RESULT" + json.dumps(out))
+"""
+
+
+def _location_corpus():
+    from contracts.c11_containment import MUTATION_CORPUS
+    from contracts.c19_traversal import _embedding_files
+    files = {}
+    for name, text in MUTATION_CORPUS.items():
+        files[name] = text
+        stem, ext = name.rsplit(".", 1)
+        files[f"{stem}__crlf.{ext}"] = text.replace("\n", "\r\n")
+        files[f"{stem}__bom.{ext}"] = "﻿" + text
+        if ext in ("ts", "js") and not text.startswith("#!"):
+            files[f"{stem}__shebang.{ext}"] = "#!/usr/bin/env node\n" + text
+        if ext in ("ts", "js") and text.startswith("#!"):
+            files[f"{stem}__no-shebang.{ext}"] = text.split("\n", 1)[1]
+        if ext == "py":
+            files[f"{stem}__shebang.{ext}"] = "#!/usr/bin/env python3\n" + text
+    for name, (lines, _ek, _starts) in _embedding_files().items():
+        files["emb_" + name] = "\n".join(lines) + "\n"
+    return files
+
+
+def _quoted_tokens(message):
+    """Names / literals the message quotes: the text between single quotes, and the number after "Magic number"."""
+    import re as _r
+    toks = _r.findall(r"'([^']+)'", message)
+    toks += _r.findall(r"Magic number (\S+)", message)
+    return [t for t in toks if t.strip()]
+
+
+def _occurs_on_line(token, src_line):
+    """The quoted name, or a spelling of the quoted value, occurs on the line: the token itself; for a call `f()` or an
+    operator phrase `x +=` its name; for a qualified name its last component; for a number any numeric literal of the
+    line with the same value (0x1f for 31, 1_000 for 1000, 10n for 10)."""
+    import re as _r
+    cands = {token, token.rstrip("()"), token.split()[0], token.rstrip("()").split(".")[-1]}
+    if any(c and c in src_line for c in cands):
+        return True
+    try:
+        val = float(token)
+    except ValueError:
+        return False
+    for lit in _r.findall(r"(?<![\w.])(0[xXoObB][0-9a-fA-F_]+|\d[\d_]*\.?\d*(?:[eE][+-]?\d+)?)", src_line):
+        try:
+            v = float(int(lit.replace("_", ""), 0)) if _r.match(r"0[xXoObB]", lit) else float(lit.replace("_", ""))
+        except ValueError:
+            continue
+        if v == val:
+            return True
+    return False
+
+
+@custom("c12-location-bounded", props=["C12"])
+def c12_location_bounded(ctx):
+    files = _location_corpus()
+    tmp = _tempfile.mkdtemp(prefix="c12loc_")
+    for name, text in files.items():
+        with open(os.path.join(tmp, name), "w", encoding="utf-8", newline="") as fh:
+            fh.write(text)
+    p = _subprocess.run([_sys.executable, "-c", _LOCATION_DRIVER, ctx["repo"], tmp], capture_output=True, text=True, timeout=900,
+                        cwd=tmp)
+    import shutil
+    shutil.rmtree(tmp, ignore_errors=True)
+    line = [ln for ln in p.stdout.splitlines() if ln.startswith("RESULT")]
+
+    def ob(name, verdict, note, cases=0):
+        return {"name": f"c12-location-bounded/{name}", "kind": "bounded", "verdict": verdict, "solver": "native", "ms": 0.0,
+                "carries": True, "lineno": 0, "note": note, "cases": cases, "tool": "real Orchestrator, all registered rules",
+                "budget": f"{len(files)} generated files", "witness_confirmed": verdict == "refuted"}
+    if not line:
+        return [ob("driver", "unknown", "driver failed: " + (p.stderr or p.stdout)[-400:])]
+    res = json.loads(line[0][len("RESULT"):])
+    per_rule = {}
+    for name, vs in sorted(res.items()):
+        text = files[name]
+        lines = text.split("\n")
+        for rule_id, file_path, ln, col, msg in vs:
+            e = per_rule.setdefault(rule_id, {"n": 0, "bad": []})
+            e["n"] += 1
+            why = None
+            if os.path.basename(file_path) != name:
+                why = f"file_path {file_path!r} is not the linted file"
+            elif not (1 <= ln <= len(lines)):
+                why = f"line {ln} outside 1..{len(lines)}"
+            elif "yntax error" in msg or ln == 1 and rule_id.split(".")[0] in ("file-header", "file-placement", "lazy-ignores"):
+                pass
+            else:
+                src_line = lines[ln - 1].rstrip("\r")
+                toks = _quoted_tokens(msg)
+                if not (0 <= col <= len(src_line) + 1):
+                    why = f"column {col} outside line {ln} (length {len(src_line)})"
+                elif toks and not any(_occurs_on_line(t, src_line) for t in toks):
+                    why = f"none of the quoted {toks} occurs on line {ln}: {src_line.strip()[:80]!r}"
+            if why and len(e["bad"]) < 4:
+                e["bad"].append(f"{name}: {rule_id} at {ln}:{col} -- {why}")
+            if why:
+                e["nbad"] = e.get("nbad", 0) + 1
+    obs = []
+    for rule_id in sorted(per_rule):
+        e = per_rule[rule_id]
+        obs.append(ob(rule_id, "refuted" if e.get("nbad") else "discharged",
+                      (f"{e['nbad']} of {e['n']} findings: " + "; ".join(e["bad"])) if e.get("nbad")
+                      else f"{e['n']} findings: all at a real location of the linted file", e["n"]))
+    if not obs:
+        obs.append(ob("findings", "unknown", "the corpus produced no finding at all"))
+    return obs
